@@ -224,6 +224,9 @@ def run(col, configs, tier):
         guarded_soft(col, X.rule_mixed_base_scaling, facts)
         guarded_soft(col, X.rule_incremented_digit_in_range, facts)
         guarded_soft(col, X.rule_lemire_precision_and_window, facts)
+        # the writer always prints an integer digit: what the parser's grammar guards do to `0.5`, `0e5` decides
+        # whether its output is accepted
+        guarded_soft(col, X.rule_grammar_guards, facts)
         from rules import syntax as S8
         guarded(col, S8.rule_getters, facts)
         from rules import c15
